@@ -184,7 +184,9 @@ func init() {
 			if t.IsConst() {
 				return bytesValue(t.Val.Bytes())
 			}
-			panic(abortPath{"Bytes of symbolic big.Int"})
+			// opaque bytes (they reach event tags and logs only): a blob holding the integer
+			fr.i.x.stub("big.Int.Bytes of a symbolic value (opaque bytes)")
+			return fr.i.newBlob(types.Typ[types.Int], bigv{t})
 		},
 		"(*math/big.Int).FillBytes": func(fr *frame, args []value) value {
 			t := bigGet(args[0])
